@@ -58,7 +58,16 @@ RULE = ("One sub-check per generator family of mouette.procedural (all 20 public
         "(<gen>:results-share-state; skipped when the results legitimately store the caller's own Vec objects, class "
         "'result-aliases-argument', whose values are then written back before the second call). Argument classes: uniform scale 1 / tiny "
         "(1e-3..1e-6) / huge (1e3..1e6) with tolerances relative to the scale, integer-typed Vec / arrays, centre and radius "
-        "left at their (shared, mutable) defaults. non-trivial = two "
+        "left at their (shared, mutable) defaults, unit-size data placed 1e3..1e6 away from the origin (tolerance 1e-9 x local "
+        "size + ~16 ulp of the offset), resolutions passed as numpy integer scalars, point arrays of dtype float32 / int16 / "
+        "int32. Wide resolutions: every 'rounding hazard' resolution n in 10..256 (x/(x/n) != n for x = 1 or 2pi, or (1/n)*n "
+        "!= 1: 48 values incl. 49, 61, 98, 122, 197, 244) is a lattice point of every resolution parameter (other resolution "
+        "minimal), and ~10% of the sampled cases replace one resolution by an arbitrary value in 10..300. Each case also draws "
+        "one library-wide config switch to flip (sort_neighborhoods, complete_edges_from_faces, complete_faces_from_cells, "
+        "display_duplicate_attribute_warning, export_edges_in_obj; 6/11 none; not drawn where the unchanged library fails, see "
+        "config_excluded) and makes, between its two calls, a call of the same generator with an inadmissible argument "
+        "(float resolution, wrong type, too few points: it normally raises); the config switches must be what the case set "
+        "after every call (<gen>:config-changed) and the edge container must be the set of face sides. non-trivial = two "
         "resolutions differ, or a boolean switch / n_cover / mode / optional argument is not at its default, or (for "
         "generators without such parameters) a centre / radius differs from the default; distinct = distinct realised cases.")
 ASSUMPTIONS = [
@@ -69,6 +78,9 @@ ASSUMPTIONS = [
     "dual_mesh: input closed, every vertex has >= 3 faces and the combinatorial dual is representable (two faces share at "
     "most one edge, dual faces have distinct vertex sets); config.sort_neighborhoods at its default (True)",
     "corner / centre points are passed as mouette Vec (what the docstrings name)",
+    "config switch values under which the unchanged library already fails are not drawn (reported as findings): "
+    "sort_neighborhoods=False for dual_mesh / octahedron / dodecahedron, complete_edges_from_faces=False for icosphere and "
+    "spherify_vertices with >= 1 subdivision, complete_faces_from_cells=False for volume=True",
 ]
 
 TOL = 1e-9
